@@ -12,6 +12,7 @@
 -/
 import FastPasta.Model.Scanner
 import FastPasta.Proofs.Bits
+import FastPasta.Proofs.ScanSrcTie
 namespace FastPasta
 namespace C03
 
@@ -411,6 +412,27 @@ theorem encode_decode (bs : Bytes) (h : bs.length = 64) : encodeRdh (decodeRdh b
   rw [e 54 2, e 52 2, e 48 4, e 40 8, e 39 1, e 38 1, e 36 2, e 32 4, e 24 8, e 20 4, e 16 4, e 14 2,
     e 13 1, e 12 1, e 10 2, e 8 2, e 6 2, e 5 1, e 4 1, e 2 2, e 1 1, e 0 1]
   rfl
+
+/-! ### tie by translation: the filter predicate and the position tracker are the source's
+    (`Spec/ScanSrcGen.lean`, translated from `input_scanner.rs`, `config/filter.rs`, `mem_pos_tracker.rs` on this run) -/
+/-- which headers a `--filter-link` / `--filter-fee` / `--filter-its-stave` option selects: for every header and target the
+    source's `is_rdh_filter_target` is the `Filter.matches` the theorems above are about (layer/stave mask included) -/
+theorem filter_src (c : SrcRdh.RdhCru) (t : SrcScan.FilterTarget) :
+    SrcScan.is_rdh_filter_target c t = filterMatches (some (ScanSrcTie.toFilter t)) (SrcTie.toModel c) :=
+  ScanSrcTie.filter_target_eq c t
+
+/-- the offsets the tool attaches to packets come from `MemPosTracker`: when the tracker's address is the model's `pos`,
+    a seek over an accepted offset (`64 ≤ off`) leaves the address at the model's new `pos`, and asks the reader to skip exactly the
+    bytes the model drops; likewise for `update_mem_address`. (No wrap-around: input below 2^64 bytes.) -/
+theorem tracker_src (t : SrcScan.MemPosTracker) (s : ScanSt) (off : Nat) (h64 : 64 ≤ off) (hoff : off < 2^16)
+    (hsz : t.f_rdh_cru_size_bytes = 64) (hp : t.current_mem_address = s.pos) (hpos : s.pos + off < 2^64) :
+    (t.next off).2.current_mem_address = (seekNext s off).pos ∧
+    (seekNext s off).rest = s.rest.drop ((t.next off).1).toNat ∧
+    (t.update_mem_address off).2.current_mem_address = s.pos + off ∧
+    SrcScan.MemPosTracker.new.current_mem_address = ({ rest := s.rest } : ScanSt).pos := by
+  have hp' : t.f_memory_address_bytes = s.pos := hp
+  obtain ⟨h0, _, h1, h2, _, h3, _⟩ := ScanSrcTie.tracker_eq t off h64 hoff hsz (by omega)
+  refine ⟨by rw [h2, hp]; rfl, by rw [h1]; rfl, by rw [h3, hp], h0⟩
 
 /-! ### non-vacuity -/
 def exHdr (off : Nat) (link : UInt8) : Bytes :=
